@@ -186,13 +186,16 @@ class State:
                                              "detail": detail, "first_agree": None})
 
 
-def report_oracle_failure(ctx, st, su, kind, tgt, ops, observed, in_class, menu, anomaly=None, panic=False):
-    if in_class != py_class(kind, ops, menu):
+def report_oracle_failure(ctx, st, su, kind, tgt, ops, observed, in_class, menu, anomaly=None, panic=False,
+                          class_ops=None, extra=None):
+    if in_class != py_class(kind, class_ops if class_ops is not None else ops, menu):
         ctx.violation("finding-class predicate of the harness and of Coq disagree on %s" % ops,
                       {"kind": "correspondence-broken", "suite": "class-predicate", "case": ops}, no_input=True)
     what = "%s: call sequence %s: occurrences ran %s%s, which is not what the property requires" % (
         tgt, ops, observed, (" (" + anomaly + ")") if anomaly else "")
-    replay = {"kind": "failing-input", "engine": "handlers", "target": tgt, "ops": ops, "observed": observed}
+    replay = {"kind": "failing-input", "engine": "handlers", "target": tgt.split(" ")[0], "ops": ops, "observed": observed}
+    if extra:
+        replay.update(extra)
     key = ENUM_FUNCS[kind][3]
     if in_class and key and not anomaly and not panic and ctx.known(key, what):
         return
@@ -360,6 +363,93 @@ def random_suite(ctx, vh, batch, st, name, targets, n, maxlen, replay=None):
             batch.add(sum(len(r["ops"]) for r in chunk) * 8, term, consume)
 
 
+RE_FUNCS = {  # kind -> agree, oracle, class, finding key
+    "ls": ("re_ls_agree", "re_ls_oracle", "(fun _ => false)", None),
+    "es": ("re_es_agree", "re_es_oracle", "re_es_class", KEY_CLOSURES),
+    "api": ("re_api_agree", "re_api_oracle", "re_api_class", KEY_LIFECYCLE),
+}
+
+
+def step_term(kind, st, menu):
+    if st[0] == "op":
+        return "(OOp %s)" % op_term(kind, st[1], menu)
+    if st[0] == "begin":
+        return "(OBegin %s)" % op_term(kind, st[2], menu)
+    if st[0] == "next":
+        return "(ONext %s %s)" % (gN(st[1]), gN(st[2]))
+    return "(OEnd %s)" % gN(st[1])
+
+
+def flat_ops(ops):
+    """all ops of a re-entrant call tree (for the harness-side finding-class predicate)"""
+    res = []
+    for o in ops:
+        if o[0] == "fire" and o and isinstance(o[-1], list):
+            res.append(o[:-1])
+            for pos in o[-1]:
+                res += flat_ops(pos or [])
+        else:
+            res.append(o)
+    return res
+
+
+def reent_suite(ctx, vh, batch, st, name, targets, n, replay=None):
+    """Occurrences in progress: registry calls (and nested occurrences) made by the handlers of an
+    occurrence, or by another goroutine while a handler waits, at every loop position."""
+    su = st.suite("reentrant/" + name, "calls made while an occurrence is being dispatched: one call at one loop "
+                  "position x registration prefixes (by the handler itself and by another goroutine) + random call trees")
+    if replay is not None:
+        args = ["-mode", "replay", "-target", replay["target"], "-ops", json.dumps(replay["ops"]),
+                "-reent", 1 if replay.get("conc") else 0]
+    else:
+        args = ["-mode", "reent", "-target", ",".join(targets), "-seed", ctx.seed, "-n", n]
+    rows = ctx.vh_jsonl(vh, "handlers", args)
+    if rows is None:
+        return
+    by_kind = {}
+    for r in rows:
+        by_kind.setdefault(kind_of(r["target"]), []).append(r)
+        inside = sum(1 for i, s_ in enumerate(r["steps"]) if s_[0] in ("op", "begin") and
+                     any(x[0] == "begin" for x in r["steps"][:i]) and
+                     sum(1 for x in r["steps"][:i] if x[0] == "begin") > sum(1 for x in r["steps"][:i] if x[0] == "end"))
+        ctx.count(1, nontrivial_key=(r["target"], r["conc"], repr(r["ops"])) if inside else None,
+                  dist="reentrant:%s:%s" % (name, "conc" if r["conc"] else "self"))
+    su["total"] += len(rows)
+    for kind, rs in by_kind.items():
+        agree_fn, oracle_fn, class_fn, key = RE_FUNCS[kind]
+        ctx.sample({"suite": "reentrant/" + name, "case": {x: rs[len(rs) // 3][x] for x in ("target", "conc", "ops", "steps")}})
+        for c0 in range(0, len(rs), 40):
+            chunk = rs[c0:c0 + 40]
+            term = "flat_map (fun c => [%s c; %s c; %s c]) %s" % (
+                agree_fn, oracle_fn, class_fn,
+                glist(gpair(glist(step_term(kind, s_, r["menu"]) for s_ in r["steps"]), gbool(r["panic"])) for r in chunk))
+
+            def consume(v, chunk=chunk, kind=kind):
+                bs = [x == "true" for x in re.findall(r"true|false", v)]
+                if len(bs) != 3 * len(chunk):
+                    raise RuntimeError("cannot parse reentrant-suite result: %s" % v[:300])
+                for j, r in enumerate(chunk):
+                    agree, oracle, cls = bs[3 * j:3 * j + 3]
+                    if not oracle:
+                        su["oracle_bad"] += 1
+                        runs = {}
+                        for s_ in r["steps"]:
+                            if s_[0] == "next":
+                                runs.setdefault(s_[1], []).append(s_[2])
+                        report_oracle_failure(ctx, st, su, kind, r["target"] + (" (calls made by another goroutine)" if r["conc"] else ""),
+                                              r["ops"], "per occurrence %s" % sorted(runs.items()), cls, r["menu"],
+                                              anomaly=("a call panicked: " + r["panicmsg"]) if r["panicmsg"] else
+                                              ("another registry of the object was disturbed" if r["panic"] else None),
+                                              panic=r["panic"], class_ops=flat_ops(r["ops"]),
+                                              extra={"mode": "reent", "conc": r["conc"], "steps": r["steps"]})
+                    if not agree:
+                        su["agree_bad"] += 1
+                        if su["first_agree"] is None:
+                            su["first_agree"] = {x: r[x] for x in ("target", "conc", "ops", "steps")}
+
+            batch.add(sum(len(r["steps"]) for r in chunk) * 10, term, consume)
+
+
 def race_suite(ctx, vh, batch, st, handlers, goroutines, repeats):
     rows = []
     for rep in range(repeats):
@@ -446,6 +536,8 @@ def run(ctx):
         rp = json.load(open(rf))["replay"]
         if rp.get("mode") == "race":
             race_suite(ctx, vh, batch, st, 10000, 16, 3)
+        elif rp.get("mode") == "reent":
+            reent_suite(ctx, vh, batch, st, "replay", None, 0, replay=rp)
         else:
             random_suite(ctx, vh, batch, st, "replay", None, 1, 30, replay=rp)
         batch.run(ctx, "c18", jobs=1)
@@ -460,6 +552,8 @@ def run(ctx):
     enum_suite(ctx, vh, batch, st, "api-events-closures", EAPI_TARGETS, "closures", 0 if q else 1, 3)
     random_suite(ctx, vh, batch, st, "stores", ["ls", "es"], 200 if q else 3000, 30)
     random_suite(ctx, vh, batch, st, "api", API_TARGETS + EAPI_TARGETS, 15 if q else 300, 30)
+    reent_suite(ctx, vh, batch, st, "stores", ["ls", "es"], 150 if q else 2000)
+    reent_suite(ctx, vh, batch, st, "api", API_TARGETS + EAPI_TARGETS, 5 if q else 100)
     race_suite(ctx, vh, batch, st, 10000, 16, 1 if q else 5)
     batch.run(ctx, "c18", jobs=8 if q else 14)
     st.refine.run(ctx, "c18_exact", jobs=8)
